@@ -282,6 +282,10 @@ def cases(draw, tier='quick'):
     for t in range(nt):
         t0 = tau + t * (dt + gap)
         times.append([t0, t0 if inst else t0 + dt])
+    # two averaging periods from the same start (1-day and 2-day mean):
+    # blocks of one tracer that share tau0 and differ in tau1
+    if nt >= 2 and not inst and draw(st.sampled_from([False] * 5 + [True])):
+        times[1] = [times[0][0], times[0][1] + dt]
     # blocks need not be stored chronologically (appended reruns, merged
     # files): the readers present file order
     if nt >= 2 and draw(st.sampled_from([False, False, True])):
@@ -723,6 +727,8 @@ def check_case(spec):
         r.label('two-blocks-one-tracer')
     if any(t0 == t1 for t0, t1 in spec['times']):
         r.label('instantaneous')
+    if len(set(t[0] for t in spec['times'])) < nt:
+        r.label('blocks-share-tau0')
     if any(spec['times'][i + 1][0] < spec['times'][i][0]
            for i in range(nt - 1)):
         r.label('blocks-out-of-order')
